@@ -4,6 +4,11 @@ the file, fail closed):
     check_shape, check_attributes, check_band_names, check_disparities_from_dataset, check_dataset,
     check_datasets, check_image_dimension, check_images, check_disparities_from_input
 
+and, as [check_input_section_custom], the "custom checking" part of check_input_section: the top-level statements
+between `checker.validate(cfg)` and the final `return cfg` (which custom check is called with which values of the
+completed configuration, in which order); what comes before (update_conf, schema selection, dict.update, json-checker
+validation) stays hand-modelled and must not return.
+
 Every function body is translated STATEMENT BY STATEMENT into a Gallina term of type [res unit] (Model/DatasetCheck.v:
 [Ok tt] = returned normally, [Raise e] = raised an exception of class e) over the named primitives of
 coq/Model/CheckPrims.v (the semantics of the xarray / numpy / rasterio / Python constructs met):
@@ -48,15 +53,17 @@ PARAM_TYPES = {
     "check_image_dimension": ["RF", "RF"],
     "check_images": ["JV"],
     "check_disparities_from_input": ["JV", "JV"],
+    "check_input_section_custom": ["JV"],
 }
-USES_FS = {"check_images", "check_disparities_from_input"}   # functions of the section over the file system
+CUSTOM = "check_input_section_custom"
+USES_FS = {"check_images", "check_disparities_from_input", "check_input_section_custom"}   # functions of the section over the file system
 COQ_TYPES = {"DS": "xr_dataset", "STR": "string", "SETSTR": "list string", "DISP": "xr_disparity", "RF": "rfile",
              "JV": "pyvalue"}
 EXC = {"AttributeError": "EAttribute", "TypeError": "EType", "ValueError": "EValue", "KeyError": "EKey",
        "IndexError": "EIndex"}
 LABELS = {"min": "LMin", "max": "LMax"}
 PYTYPES = {"str": "TyStr", "list": "TyList"}
-RESERVED = set("""at as cofix else end exists exists2 fix for forall fun if IF in let match mod return Set Prop SProp
+RESERVED = set("""check_input_section_custom check_completed_with at as cofix else end exists exists2 fix for forall fun if IF in let match mod return Set Prop SProp
 Type then using where with do Some None true false negb andb orb fst snd Z Q nat list option bool string unit tt
 res Ok Raise andthen bind for_each filter forallb existsb map nth length fs
 exc EAttribute EType EValue EKey EIndex ESchema EIO label LMin LMax LOther shape last2 shape_eqb
@@ -502,8 +509,9 @@ class Fn:
         for a in order:
             n = next(k for k, v in actual.items() if v is a)
             texts[n] = self.want(a, self.expr(a), PARAM_TYPES[callee][names.index(n)])
-        fsarg = "fs " if callee in USES_FS else ""
-        return f"{callee} {fsarg}" + " ".join(texts[n] for n in names)
+        if callee in USES_FS and self.name not in USES_FS:
+            self.refuse(c, f"{callee} reads the file system and {self.name} is outside the section over it")
+        return f"{callee} " + " ".join(texts[n] for n in names)
 
 
 HEADER = """From Coq Require Import ZArith QArith List Bool String.
@@ -625,6 +633,34 @@ def translate():
     defs = {s.name: s for s in tree.body if isinstance(s, ast.FunctionDef) and s.name in FUNCS}
     sigs, stats = {}, []
     ds_part, fs_part = "", ""
+    def forbid(name, nodes):
+        for top in nodes:
+            for node in ast.walk(top):
+                if isinstance(node, (ast.Return, ast.Yield, ast.YieldFrom, ast.Try, ast.With, ast.While, ast.Nonlocal,
+                                     ast.FunctionDef, ast.AsyncFunctionDef, ast.ClassDef, ast.Import,
+                                     ast.ImportFrom, ast.Delete, ast.AugAssign, ast.NamedExpr, ast.Await, ast.Break,
+                                     ast.Continue)):
+                    fail(f"{cc_path}:{node.lineno}", f"{name}: {type(node).__name__} not supported")
+
+    def emit_fn(name, params, stmts, lineno, end_lineno, title):
+        nonlocal ds_part, fs_part
+        tr = Fn(cc_path, name, params, sigs)
+        body = tr.block(stmts, 2 if name in USES_FS else 1)
+        if tr.pre:
+            fail(f"{cc_path}:{lineno}", f"{name}: internal error, unbound temporaries")
+        binders = " ".join(f"({p} : {COQ_TYPES[t]})" for p, t in zip(params, PARAM_TYPES[name]))
+        pad = "  " if name in USES_FS else ""
+        one = (f"{pad}(* check_configuration.{title}, lines {lineno}-{end_lineno} *)\n"
+               f"{pad}Definition {name} {binders} : res unit :=\n{body}.\n\n")
+        if name in USES_FS:
+            fs_part += one
+        else:
+            ds_part += one
+        sigs[name] = params
+        src = "\n".join(text.splitlines()[lineno - 1:end_lineno])
+        sources.append((cc_path, f"lines {lineno}-{end_lineno} ({name})", sha1_of(src)))
+        stats.append(f"{name}={len([x for x in stmts if not (isinstance(x, ast.Expr) and is_const(x.value, kind=str))])}")
+
     for name in FUNCS:
         fn = defs[name]
         where = f"{cc_path}:{fn.lineno}"
@@ -638,27 +674,45 @@ def translate():
         for p in params:
             if p in RESERVED:
                 fail(where, f"{name}: parameter name {p} is reserved by the generated text")
-        for node in ast.walk(fn):
-            if node is not fn and isinstance(node, (ast.Return, ast.Yield, ast.YieldFrom, ast.Try, ast.With, ast.While, ast.Nonlocal,
-                                 ast.FunctionDef, ast.ClassDef, ast.Import, ast.ImportFrom, ast.Delete, ast.AugAssign,
-                                 ast.NamedExpr, ast.Await, ast.Break, ast.Continue)):
-                fail(f"{cc_path}:{node.lineno}", f"{name}: {type(node).__name__} not supported")
-        tr = Fn(cc_path, name, params, sigs)
-        body = tr.block(fn.body, 2 if name in USES_FS else 1)
-        if tr.pre:
-            fail(where, f"{name}: internal error, unbound temporaries")
-        binders = " ".join(f"({p} : {COQ_TYPES[t]})" for p, t in zip(params, PARAM_TYPES[name]))
-        pad = "  " if name in USES_FS else ""
-        one = (f"{pad}(* check_configuration.{name}({', '.join(params)}), lines {fn.lineno}-{fn.end_lineno} *)\n"
-               f"{pad}Definition {name} {binders} : res unit :=\n{body}.\n\n")
-        if name in USES_FS:
-            fs_part += one
-        else:
-            ds_part += one
-        sigs[name] = params
-        src = "\n".join(text.splitlines()[fn.lineno - 1:fn.end_lineno])
-        sources.append((cc_path, f"lines {fn.lineno}-{fn.end_lineno} ({name})", sha1_of(src)))
-        stats.append(f"{name}={len([s for s in fn.body if not (isinstance(s, ast.Expr) and is_const(s.value, kind=str))])}")
+        forbid(name, fn.body)
+        emit_fn(name, params, fn.body, fn.lineno, fn.end_lineno, f"{name}({', '.join(params)})")
+
+    # the custom checking of check_input_section: what follows `checker.validate(cfg)` up to `return cfg`
+    cis = [x for x in tree.body if "check_input_section" in bound_names(x)]
+    if len(cis) != 1 or not isinstance(cis[0], ast.FunctionDef) or cis[0].decorator_list:
+        fail(cc_path, "check_input_section is not bound exactly once, by a plain top-level def")
+    fn = cis[0]
+    where = f"{cc_path}:{fn.lineno}"
+    body = [x for x in fn.body if not (isinstance(x, ast.Expr) and is_const(x.value, kind=str))]
+    if not body or not (isinstance(body[-1], ast.Return) and is_name(body[-1].value)):
+        fail(where, "check_input_section does not end with `return <name>`")
+    cfg = body[-1].value.id
+    if cfg in RESERVED:
+        fail(where, f"check_input_section: the name {cfg} is reserved by the generated text")
+    first = body[0]
+    if not (isinstance(first, ast.Assign) and len(first.targets) == 1 and is_name(first.targets[0], cfg)
+            and isinstance(first.value, ast.Call) and is_name(first.value.func, "update_conf")):
+        fail(where, f"check_input_section does not start with `{cfg} = update_conf(..)`")
+    val = [i for i, x in enumerate(body)
+           if isinstance(x, ast.Expr) and isinstance(x.value, ast.Call) and isinstance(x.value.func, ast.Attribute)
+           and x.value.func.attr == "validate" and len(x.value.args) == 1 and is_name(x.value.args[0], cfg)
+           and not x.value.keywords]
+    if len(val) != 1:
+        fail(where, f"check_input_section: expected exactly one top-level statement `<checker>.validate({cfg})`")
+    for x in body[1:val[0]]:
+        for node in ast.walk(x):
+            if isinstance(node, (ast.Return, ast.Yield, ast.YieldFrom)):
+                fail(f"{cc_path}:{node.lineno}", "check_input_section: a return before the validation")
+            if isinstance(node, (ast.Assign, ast.AugAssign, ast.AnnAssign, ast.NamedExpr, ast.Delete, ast.For)):
+                targets = node.targets if isinstance(node, (ast.Assign, ast.Delete)) else [node.target]
+                if any(is_name(t, cfg) for t in targets):
+                    fail(f"{cc_path}:{node.lineno}", f"check_input_section: {cfg} is re-assigned before the validation")
+    tail = body[val[0] + 1:-1]
+    if not tail:
+        fail(where, "check_input_section: no custom check after the validation")
+    forbid(CUSTOM, tail)
+    emit_fn(CUSTOM, [cfg], tail, tail[0].lineno, tail[-1].end_lineno,
+            f"check_input_section, after checker.validate({cfg})")
     sources.append(check_rasterio_open(it_path))
     body = (HEADER + ds_part
             + "Section Fs.\n  (* rasterio.open: the raster files behind the paths *)\n"
